@@ -28,7 +28,7 @@ CHECKS = {
         "design": "DESIGN.md section 5 C11",
     },
     "C12": {
-        "text": "Coq: an issued automatic timestamp exceeds everything its shard has seen unless saturated; hence (for not-KnownClass histories: shard above the key's timestamp and not saturated) automatic insert/delete/CAS/patch are never answered Older; a failing explicit timestamp is not absorbed; and the unrestricted statement is refuted by a witness (known finding F2). Tie: every call of the C01 sequences reports the clock shard value, which the reference map checks against the clock rules (strictly above the previous value, within the wall-clock window, observe=max, recovered timestamps covered after reopen); an implementation-side oracle flags any automatically timestamped call answered OlderTimestamp on a key the application did not pin at the maximum; a second stream uses 2^64-2 / 2^64-1 and replays F2.",
+        "text": "Coq: an issued automatic timestamp exceeds everything its shard has seen unless saturated; hence (for not-KnownClass histories: shard above the key's timestamp and not saturated) automatic insert/delete/CAS/patch are never answered Older; a failing explicit timestamp is not absorbed; and the unrestricted statement is refuted by a witness (known finding F2). Tie: every call of the C01 sequences reports the clock shard value, which the reference map checks against the clock rules (strictly above the previous value, within the wall-clock window, observe=max, recovered timestamps covered after reopen); an implementation-side oracle flags any automatically timestamped call answered OlderTimestamp on a key the application did not pin at the maximum; a second stream uses 2^64-2 / 2^64-1 and replays F2. Under any interleaving: Coq over Model/Clock.v (one VersionClock shard; every load and weak compare-exchange of next and observe is a step, any number of threads, any schedule): the shard never decreases; a timestamp handed out is at least the wall clock given and exceeds every timestamp handed out earlier and every timestamp whose observe had returned earlier, unless it is 2^64-1; observed (recovered, explicit) timestamps stay covered; run alone the two calls are exactly the reference map's clock rules; tied by T-eq through hook H14 (a fresh shard driven call by call).",
         "note": TRUST + " Known finding F2 is listed in known_findings.json (class near-max-accepted).",
         "design": "DESIGN.md section 5 C12",
     },
